@@ -130,6 +130,10 @@ def stepST (toks : List String) : Option String :=
   | ["st_contains", a, t, s] => do
     let a ← parseST a; let t ← t.toNat?; let s ← s.toNat?
     pure (showBool (memSTB t s a))
+  | ["st_span", m] => do
+    -- min_index_left | max_index_left (exclusive) | compute_n_ranges
+    let m ← parseST m
+    pure s!"{(minIndexLeft m).map toString |>.getD "_"}|{(maxIndexLeft m).map toString |>.getD "_"}|{nRangesST m}"
   | ["st_buff", cells] => do
     -- one buffer of (time cell, space cell) observations through the transliterated `buff_to_moc`
     let obs ← parseCellPairs cells
